@@ -6,6 +6,7 @@ import (
 	"fmt"
 	"os"
 	"reflect"
+	"regexp"
 	"time"
 )
 
@@ -156,6 +157,42 @@ func (s *Schema) transform(o Object) {
 	for _, t := range s.transformers {
 		t.Transform(o)
 	}
+}
+
+// validateQuery checks that a query on a field which is not indexed can be
+// evaluated: known field of an indexable type, search value of that type,
+// known operator and valid regular expression
+func (s *Schema) validateQuery(field, operator string, search *indexedField) (err error) {
+	var fd FieldDescriptor
+	var cast string
+	var ok bool
+
+	// the field is known to exist: without descriptor it is a structure
+	if fd, ok = s.Fields[field]; !ok {
+		return fmt.Errorf("%w: field %s cannot be searched", ErrUnknownKeyType, field)
+	}
+
+	if cast, err = fd.castType(); err != nil {
+		return
+	}
+
+	if cast != search.valueTypeString() {
+		return fmt.Errorf("%w, cannot cast %T(%v) to %s", ErrCasting, search.Value, search.Value, cast)
+	}
+
+	switch operator {
+	case "!=", "=", ">", ">=", "<", "<=":
+	case "~=":
+		if sval, ok := search.Value.(string); ok {
+			if _, err = regexp.Compile(sval); err != nil {
+				return
+			}
+		}
+	default:
+		return fmt.Errorf("%w %s", ErrUnkownSearchOperator, operator)
+	}
+
+	return
 }
 
 func (s *Schema) makeTmpIndex() *objIndex {
